@@ -192,23 +192,51 @@ def rule_projection_pairs(rep: Report, repo: Repo):
 
 
 def _flag_branches(owner, flag: str, mask: str):
-    """Construction branches (arms of one `if`) that assign both the mask dictionary and the boolean flag:
-    -> [(meaning of the masks, flag value, node)]."""
+    """Construction branches (arms of one `if`) that assign the mask dictionary, with the value the boolean flag has
+    in that arm: -> [(meaning of the masks, flag value, node)].  The flag is either a constant assigned in the same arm
+    or one expression (assigned next to the `if`) over the arm's own condition."""
+    from .paths import eval_bool
+    from .resolve import env_at, resolved
+    from .sem import canon
     out = []
+    func = owner
+    while func is not None and not isinstance(func, ast.FunctionDef):
+        func = getattr(func, "_parent", None)
     for field in ("body", "orelse"):
-        for s in getattr(owner, field, []) or []:
+        blk = getattr(owner, field, []) or []
+        for s in blk:
             if not isinstance(s, ast.If):
                 continue
-            for arm in (s.body, s.orelse):
+            arms = [(s.body, True), (s.orelse, False)]
+            if not any(any(isinstance(n, ast.Assign) and any(norm(t) == mask for t in n.targets) for n in arm) for arm, _ in arms):
+                continue
+            test = canon(resolved(s.test, env_at(s, func))) if func is not None else canon(s.test)
+            outer_flag = [n for n in blk if isinstance(n, ast.Assign) and any(norm(t) == flag for t in n.targets)]
+            for arm, pol in arms:
                 fl = [n for n in arm if isinstance(n, ast.Assign) and any(norm(t) == flag for t in n.targets)]
                 mk = [n for n in arm if isinstance(n, ast.Assign) and any(norm(t) == mask for t in n.targets)]
-                if not fl and not mk:
-                    continue
-                if len(fl) != 1 or len(mk) != 1 or not (isinstance(fl[0].value, ast.Constant) and isinstance(fl[0].value.value, bool)):
+                if len(mk) != 1:
+                    return []
+                if len(fl) == 1 and isinstance(fl[0].value, ast.Constant) and isinstance(fl[0].value.value, bool) and not outer_flag:
+                    fval, node = fl[0].value.value, fl[0]
+                elif not fl and len(outer_flag) == 1 and func is not None:
+                    e = canon(resolved(outer_flag[0].value, env_at(outer_flag[0], func)))
+                    tt = norm(test)
+                    neg = tt.startswith("not ")
+                    base = tt[4:] if neg else tt
+                    def atom(n, base=base, neg=neg, pol=pol):
+                        t = norm(canon(n))
+                        if t == base:
+                            return (not pol) if neg else pol
+                        return None
+                    fval, node = eval_bool(e, atom), outer_flag[0]
+                    if fval is None:
+                        return []
+                else:
                     return []
                 t = norm(mk[0].value)
                 meaning = "keep" if "equal_eigs" in t else ("eliminate" if "fully_diagonalize.items()" in t else None)
-                out.append((meaning, fl[0].value.value, fl[0]))
+                out.append((meaning, fval, node))
     return out
 
 
@@ -294,6 +322,31 @@ def _mask_meaning(func, owner, name: str):
     return None
 
 
+from .resolve import rtext as rtext_
+
+
+def _mapped_over(value, env, tup_text: str) -> bool:
+    """tuple(F(x) for x in TUP)  or  (F(a), F(b), F(c)) with (a, b, c) = TUP: the same one-argument function applied
+    to the three outputs in order."""
+    from .resolve import resolved
+    v = resolved(value, env)
+    while isinstance(v, ast.Call) and call_name(v) in ("tuple", "list") and len(v.args) == 1:
+        v = v.args[0]
+    if isinstance(v, (ast.GeneratorExp, ast.ListComp)) and len(v.generators) == 1 and not v.generators[0].ifs \
+            and norm(v.generators[0].iter) == tup_text and isinstance(v.elt, ast.Call) and len(v.elt.args) == 1 \
+            and norm(v.elt.args[0]) == norm(v.generators[0].target) and not v.elt.keywords:
+        return True
+    if isinstance(v, (ast.GeneratorExp, ast.ListComp)) and len(v.generators) == 1 and not v.generators[0].ifs \
+            and isinstance(v.generators[0].iter, (ast.List, ast.Tuple)) and isinstance(v.elt, ast.Call) and len(v.elt.args) == 1 \
+            and not v.elt.keywords and isinstance(v.elt.args[0], ast.Subscript) and norm(v.elt.args[0].slice) == norm(v.generators[0].target):
+        out = norm(v.elt.args[0].value)
+        return "(" + ", ".join(f"{out}[{norm(k)}]" for k in v.generators[0].iter.elts) + ")" == tup_text
+    if isinstance(v, ast.Tuple) and len(v.elts) == 3 and all(isinstance(e, ast.Call) and len(e.args) == 1 and not e.keywords for e in v.elts):
+        fns = {norm(e.func) for e in v.elts}
+        return len(fns) == 1 and "(" + ", ".join(norm(e.args[0]) for e in v.elts) + ")" == tup_text
+    return False
+
+
 def rule_scope_flags(rep: Report, repo: Repo):
     R = "E1.scope"
     f = repo.find(f"{MOD}::block_diagonalize", R)
@@ -332,18 +385,21 @@ def rule_scope_flags(rep: Report, repo: Repo):
     if cb is not None:
         src = [n for n in own_nodes(f) if isinstance(n, ast.Assign) and norm(n.targets[0]) == norm(cb)]
         texts = {}
+        from .resolve import env_at as _env_at, resolved as _resolved
+        from .sem import canon as _canon
         for a in src:
             p = a._parent
             pol = None
             if isinstance(p, ast.If):
-                t, tp = norm(p.test), any(a is s for s in p.body)
+                tp = any(a is s for s in p.body)
+                t = norm(_canon(_resolved(p.test, _env_at(p, f))))
                 if t == "not isinstance(fully_diagonalize, dict)":
                     pol = "nodict" if tp else "dict"
                 elif t == "isinstance(fully_diagonalize, dict)":
                     pol = "dict" if tp else "nodict"
-            texts[pol] = norm(a.value)
+            texts[pol] = rtext_(a.value, {})
         ok = texts.get("nodict") in ("[True] * H.shape[0]",) and \
-            texts.get("dict") in ("[i not in fully_diagonalize for i in range(H.shape[0])]",)
+            texts.get("dict") in ("[_v0 not in fully_diagonalize for _v0 in range(H.shape[0])]",)
         rep.check(ok, R, f"{MOD}::block_diagonalize commuting_blocks[i] is False exactly for blocks with a user mask",
                   str(texts), loc(src[0] if src else scopes[0]))
     rep.check(norm(d.get("solve_sylvester", ast.Constant(None))) == "solve_sylvester", R,
@@ -373,8 +429,33 @@ def rule_scope_flags(rep: Report, repo: Repo):
         ok = norm(c.args[0]) == "{'H': H}" and kw.get("algorithm") == "algorithm" and kw.get("scope") == "scope" and kw.get("operator") == "operator"
     rep.check(ok, R, f"{MOD}::block_diagonalize series_computation({{'H': H}}, algorithm, scope, operator)", "", loc(calls[0] if calls else f))
     rets = [n for n in own_nodes(f) if isinstance(n, ast.Return)]
-    ok = any(norm(r.value) == "(outputs['H_tilde'], outputs['U'], outputs['U†'])" for r in rets)
-    rep.check(ok, R, f"{MOD}::block_diagonalize returns (H_tilde, U, U†) in this order", "", loc(rets[-1] if rets else f))
+    from .resolve import env_at as _ea0
+    sc_asg = [n for n in own_nodes(f) if isinstance(n, ast.Assign) and isinstance(n.value, ast.Call) and call_name(n.value) == "series_computation"]
+    if len(sc_asg) != 1:
+        raise AnalysisError(R, "assignment of the series_computation result not found")
+    tg = sc_asg[0].targets[0]
+    OUT = norm(tg.elts[0]) if isinstance(tg, ast.Tuple) else None
+    if OUT is None or not OUT.isidentifier():
+        raise AnalysisError(R, "series_computation result is not unpacked into (outputs, ...)")
+    TUP = f"({OUT}['H_tilde'], {OUT}['U'], {OUT}['U†'])"
+    _ea = lambda n_, f_: _ea0(n_, f_, opaque=(OUT,))
+    forms = []
+    for r_ in rets:
+        t = rtext_(r_.value, _ea(r_, f))
+        if t == TUP:
+            forms.append("plain")
+        elif _mapped_over(r_.value, _ea(r_, f), TUP):
+            forms.append("mapped")
+        else:
+            forms.append("other:" + t[:80])
+    if any(x.startswith("other") for x in forms):
+        known_wrong = [x for x in forms if x.startswith(f"other:({OUT}[")]
+        if known_wrong:
+            rep.fail(R, f"{MOD}::block_diagonalize returns (H_tilde, U, U†) in this order", str(known_wrong), loc(rets[-1]))
+        else:
+            raise AnalysisError(R, f"block_diagonalize: returned value not understood: {forms}")
+    else:
+        rep.check("plain" in forms, R, f"{MOD}::block_diagonalize returns (H_tilde, U, U†) in this order", str(forms), loc(rets[-1] if rets else f))
     # equal_eigs: the kept pairs of a fully diagonalised block are the pairs the diagonal solver treats as
     # degenerate: numeric |E_a - E_b| < atol with the same `atol` that is handed to the solver; symbolic: equality
     ee = [n for n in own_nodes(f) if isinstance(n, ast.Assign) and norm(n.targets[0]) == "equal_eigs"]
